@@ -968,13 +968,30 @@ def gen_domain_end_case(rng):
         if hi - lo >= 3. and all(psat(i, lo) >= 5e3 for i in ids): break
     else:
         return None
-    pkg = rng.choice([0, 1, 1, 2])
+    pkg = rng.choice([0, 0, 0, 1, 1, 2])
     ops = [f'sys {pkg} {",".join(ids)}']
-    for _ in range(rng.randrange(4, 7)):
+    for _ in range(rng.randrange(5, 9)):
         z = [round(rng.uniform(0.05, 1.0), 3) for _ in ids]
         if rng.random() < 0.5: s_ = sum(z); z = [v / s_ for v in z]
         T = round(rng.uniform(lo, min(hi, min(tmins) + 10.)) if rng.random() < 0.65 else rng.uniform(min(tmins) + 10., hi), 3)
         r = rng.random()
+        if pkg == 0 and rng.random() < 0.45:
+            # (ideal package only: there the true bubble/dew temperature IS T, inside every chemical's Psat range; with an
+            #  activity package it can fall below the range, outside the quantifier)
+            # the P-specified twin: a pressure whose (ideal) bubble resp. dew temperature is T, i.e. a true bubble/dew
+            # temperature inside the window, where the ideal starting guess `_Ty_ideal` / `_Tx_ideal` is clipped at Tmin + 10
+            zn = [v / sum(z) for v in z]
+            pb = sum(a * psat(i, T) for a, i in zip(zn, ids))
+            pd = 1. / sum(a / psat(i, T) for a, i in zip(zn, ids))
+            if min(pb, pd) < 5e3: continue
+            if r < 0.35: ops.append(f'pt bubT {round(pb, 2)!r} 1.0 {zs(z)}')
+            elif r < 0.55: ops.append(f'pt dewT {round(pd, 2)!r} 1.0 {zs(z)}')
+            # (bubble ops at the bubble pressure of T, dew ops at its dew pressure, so that the temperature solved for is T
+            #  itself; at p_bubble the dew temperature lies above T, still inside the range)
+            elif r < 0.75: ops.append(f'ord T {round(pb, 2)!r} {zs(z)}')
+            elif r < 0.88: ops.append(f'rt bub P {round(pb, 2)!r} {zs(z)}')
+            else: ops.append(f'rt dew P {round(pd, 2)!r} {zs(z)}')
+            continue
         if r < 0.3: ops.append(f'pt {rng.choice(["bubP", "dewP"])} {T!r} 1.0 {zs(z)}')
         elif r < 0.55: ops.append(f'rt {rng.choice(["bub", "dew"])} T {T!r} {zs(z)}')
         elif r < 0.75: ops.append(f'ord P {T!r} {zs(z)}')
@@ -1380,6 +1397,10 @@ def corpus():
         # T within 10 K of the lower end of the union of the Psat ranges (vle_domain's Tmin, which solve_Py clamps to)
         Case(['sys 1 Benzene,Cyclohexane', 'pt bubP 280.0 1.0 0.5,0.5', 'rt bub T 284.0 0.5,0.5', 'rt dew T 281.5 0.3,0.7',
               'ord P 286.0 0.6,0.4', 'pt bubP 288.0 1.0 0.2,0.8', 'pt bubP 290.0 1.0 0.2,0.8'], {'domain-end': True}),
+        # … and P-specified: the true bubble / dew temperature lies within 10 K of that lower end (ideal package)
+        Case(['sys 0 Benzene,Cyclohexane', 'pt bubT 6000.0 1.0 0.5,0.5', 'pt dewT 6000.0 1.0 0.5,0.5', 'ord T 6500.0 0.3,0.7',
+              'rt bub P 7000.0 0.6,0.4', 'pt bubT 9500.0 1.0 0.5,0.5'], {'domain-end': True}),
+
         # a chemical without Dortmund groups (γ = 1) listed first / in the middle / last among chemicals with groups
         Case(['sys 1 Ethanol,Methanol,SO2', 'perm bubP 300.0 2,0,1 0.35,0.45,0.2', 'perm bubP 300.0 0,2,1 0.35,0.45,0.2',
               'perm dewP 300.0 2,1,0 0.35,0.45,0.2', 'perm bubP 300.0 1,0,2 0.35,0.45,0.2', 'ord P 300.0 0.35,0.45,0.2',
